@@ -55,6 +55,11 @@ def instances(tier):
             out.append({"kind": "at4_ability", "fmt": fmt, "gpos": []})
     for n in (1, 2):
         out.append({"kind": "at5_ability", "n": n})
+    # ability records longer than the known layout: the record announces its own length ("following data length")
+    for d in (2, 26):
+        out.append({"kind": "at5_ability", "n": 2, "delta": d})
+        out.append({"kind": "at4_ability", "fmt": [str(24 + d), "24"], "gpos": [0, 15]})
+        out.append({"kind": "at4_ability", "fmt": ["22", str(24 + d)], "gpos": [1]})
     nb = 3 if tier == "quick" else 6
     for g in (4, 5):
         out.append({"kind": "names", "gen": g, "n": 1, "free": nb})
@@ -247,12 +252,13 @@ def _at4_ability(ctx, p):
         name = [ctx.byte(f"n{i}_{j}") if j < 2 else (0x41 if j < 4 else 0) for j in range(16)]
         body = [ctx.byte(f"a{i}_{j}") for j in range(6)]           # start, count, modes, fans, min, max
         r = [ctx.byte(f"ac{i}"), fl] + name + body
-        if fl == 24:
+        if fl >= 24:
             # group bitmap: the bits at the instance's positions are free, the others fixed (each free bit doubles the paths)
             word = 0x5A5A
             for pos in p["gpos"]:
                 word = (word & (0xFFFF ^ (1 << pos))) | (ctx.bits(f"g{i}_{pos}", 1) << pos)
             r += [word & 0xFF, (word >> 8) & 0xFF]
+            r += [ctx.byte(f"x{i}_{j}") for j in range(fl - 24)]      # bytes beyond the known layout (a later protocol version)
         recs.append(r)
         payload += r
     res, exc = _decode(g, 0x1F, framing.ext(0xFF11, payload), ctx)
@@ -376,7 +382,13 @@ def _at5_ability(ctx, p):
     payload = []
     for i in range(p["n"]):
         name = [ctx.byte(f"n{i}_{j}") if j < 2 else (0x41 if j < 4 else 0) for j in range(16)]
-        r = [ctx.byte(f"ac{i}"), ctx.byte(f"fl{i}")] + name + [ctx.byte(f"a{i}_{j}") for j in range(8)]
+        delta = p.get("delta")
+        if delta is None:
+            # the announced length is free while the records are of the known size: only 24 is consistent with the bytes sent
+            flb = ctx.byte(f"fl{i}")        # free: only some values are consistent with the bytes that follow (see below)
+        else:
+            flb = 24 + delta
+        r = [ctx.byte(f"ac{i}"), flb] + name + [ctx.byte(f"a{i}_{j}") for j in range(8)] + [ctx.byte(f"x{i}_{j}") for j in range(delta or 0)]
         recs.append(r)
         payload += r
     res, exc = _decode(g, 0x1F, framing.ext(0xFF11, payload), ctx)
@@ -386,6 +398,15 @@ def _at5_ability(ctx, p):
         ctx.reach("consumed")
         return
     acs = res.message.sub_message.ac_abilities
+    if p.get("delta") is None:
+        # records of the known size with free "following length" bytes: the only consistent readings of n*26 bytes are n
+        # records announcing 24, or (n = 2) one record announcing 50 whose tail is unknown data; anything else is malformed
+        fls = [r[1] for r in recs]
+        if len(recs) == 2 and len(acs) == 1:
+            ctx.check(fls[0] == 50, lab, detail="one record delivered although the first does not announce the whole payload")
+            recs = [recs[0] + recs[1]]
+        else:
+            ctx.check(sym_and(*[f == 24 for f in fls]), lab, detail="delivered although an announced record length disagrees with the bytes present")
     ctx.check(len(acs) == len(recs), lab, detail="record count")
     for i, (d, r) in enumerate(zip(acs, recs)):
         e = r5.ability_record(r)
